@@ -79,7 +79,7 @@ def gen(S, tier):
           "torn": False, "script": [],
           # who reads the typed lines: the simulated input stream, or clikit's own StreamInputStream /
           # StringInputStream over an in-memory source
-          "input_via": c.weighted([("sim", 6), ("stream", 3), ("string", 1.5)]),
+          "input_via": c.weighted([("sim", 6), ("stream", 3), ("string", 2), ("null", 0.6)]),
           # fault: the program's standard output is gone (closed) - the dialogue runs on the error output
           "stdout_closed": c.chance(0.1)}
     if kind == "choice":
@@ -105,6 +105,10 @@ def gen(S, tier):
     sc["script2"] = [_answer(w, sc) for _ in range(w.randint(0, 3))] if w.chance(0.35) else None
     # second ask on a NEW I/O wrapped around the SAME source: it continues where the first stopped
     sc["shared_source"] = sc["input_via"] == "stream" and sc["script2"] is not None and w.chance(0.6)
+    # ... or on the SAME I/O, after more input was appended to its StringInputStream
+    sc["append_same_io"] = sc["input_via"] == "string" and sc["script2"] is not None and w.chance(0.6)
+    if sc["input_via"] == "null":
+        sc["script"] = []   # NullInputStream: there is never anything to read
     return sc
 
 
@@ -247,6 +251,15 @@ def execute(sc):
             append_to_source(shared["source"], sc["script2"])
             sc2 = dict(sc2, script=unread_lines(shared["source"]), _source=shared["source"])
             res.probe("second_io_on_same_source")
+        elif sc.get("append_same_io") and shared.get("io") is not None and sc["interactive"]:
+            io_, inp_, out_, err_, full = shared["io"]
+            rest = full.encode("utf-8")[inp_.consumed:].decode("utf-8", "replace")
+            more = "".join(sc["script2"])
+            if full and not full.endswith("\n"):
+                more = "\n" + more   # the user finishes the torn line first
+            inp_.append(more)
+            sc2 = dict(sc2, script=(rest + more).splitlines(True), _io=shared["io"])
+            res.probe("second_ask_same_io_after_append")
         n0, nt = len(res.violations), res.nontrivial
         _dialogue(sc2, q, res, log, "second_ask:", {})
         for v in res.violations[n0:]:
@@ -288,12 +301,27 @@ def _dialogue(sc, q, res, log, tag, shared):
     from clikit.formatter import AnsiFormatter
 
     lines, entries = _entries(sc)
+    if sc.get("input_via") == "null":
+        lines, entries = [], []   # a NullInputStream never has anything typed into it
     limit = sc["attempts"]
     kind = sc["kind"]
     has_validator = kind == "choice" or (kind == "question" and sc.get("validator"))
     budget = limit if (limit and has_validator) else 2
     via = sc.get("input_via", "sim")
-    if via == "stream":
+    reuse = sc.get("_io")
+    if reuse is not None:
+        io, inp, out, err, _ = reuse
+        inp.reads = inp.reads_after_eof = 0
+        inp.eof_budget = max(budget, 1) + 2
+        del out.writes[:]
+        del err.writes[:]
+        out.n_calls = err.n_calls = 0
+    elif via == "null":
+        from clikit.io.input_stream.null_input_stream import NullInputStream
+        from ..realstream import counting
+        inp = counting(NullInputStream)().dsim_init(log, max(budget, 1) + 2)
+        res.probe("null_input")
+    elif via == "stream":
         from clikit.io.input_stream.stream_input_stream import StreamInputStream
         from ..realstream import counting, string_source
         src = sc.get("_source")
@@ -309,17 +337,19 @@ def _dialogue(sc, q, res, log, tag, shared):
         res.probe("real_string_input")
     else:
         inp = SimInputStream(log, lines, eof_budget=max(budget, 1) + 2)
-    out = SimOutputStream("out", log, ansi=True)
-    if sc.get("stdout_closed"):
-        out.close()
-        res.fault("stdout_closed")
-    err = SimOutputStream("err", log, ansi=True)
-    err.max_calls = out.max_calls = 400  # a dialogue of <= 12 reads cannot need more
-    # the harness's own style set: error lines are recognised by a style the harness chose
-    fm = AnsiFormatter(StyleSet([Style("error").fg("magenta").underlined(), Style("question").fg("blue"),
-                                 Style("comment").fg("cyan"), Style("info").fg("green"), Style("hl").fg("black").bg("white")]))
-    io = IO(Input(inp), Output(out, fm), Output(err, fm))
-    if not sc["interactive"]:
+    if reuse is None:
+        out = SimOutputStream("out", log, ansi=True)
+        if sc.get("stdout_closed"):
+            out.close()
+            res.fault("stdout_closed")
+        err = SimOutputStream("err", log, ansi=True)
+        err.max_calls = out.max_calls = 400  # a dialogue of <= 12 reads cannot need more
+        # the harness's own style set: error lines are recognised by a style the harness chose
+        fm = AnsiFormatter(StyleSet([Style("error").fg("magenta").underlined(), Style("question").fg("blue"),
+                                     Style("comment").fg("cyan"), Style("info").fg("green"), Style("hl").fg("black").bg("white")]))
+        io = IO(Input(inp), Output(out, fm), Output(err, fm))
+        shared["io"] = (io, inp, out, err, "".join(lines))
+    if not sc["interactive"] and reuse is None:
         via = sc.get("off_via", "io")
         if via == "input":
             io.input.set_interactive(False)
@@ -374,6 +404,11 @@ def _dialogue(sc, q, res, log, tag, shared):
         res.probe("eof_inside_dialogue")
         if limit is None:
             res.probe("eof_unlimited_attempts")
+        if reads - after_eof < len(entries):
+            # (cannot happen with the simulated user; clikit's own stream classes sit in between here)
+            res.violate("input_lost", "end_of_input_before_the_end", "the dialogue was told 'end of input' after %d of the %d typed entries %r" % (
+                reads - after_eof, len(entries), entries))
+            return res
     if sc["torn"]:
         res.fault("torn_last_line")
         res.probe("torn_last_line")
